@@ -27,6 +27,9 @@ type pipeEnd struct {
 	once sync.Once
 	cmu  sync.Mutex
 	cch  chan struct{} // closed by Close
+	// onIdle, when set, is called by Read (in the reader's goroutine) each time it finds nothing
+	// to read and is about to wait
+	onIdle func()
 }
 
 // closedCh is closed when Close has been called on this end.
@@ -52,6 +55,17 @@ func (p *pipeEnd) Read(b []byte) (int, error) {
 	for len(h.buf) == 0 {
 		if h.closed || h.rdead {
 			return 0, io.EOF
+		}
+		if p.onIdle != nil {
+			h.mu.Unlock()
+			p.onIdle()
+			h.mu.Lock()
+			if len(h.buf) != 0 {
+				break
+			}
+			if h.closed || h.rdead {
+				return 0, io.EOF
+			}
 		}
 		if !h.dl.IsZero() && !time.Now().Before(h.dl) {
 			return 0, timeoutErr{}
